@@ -111,14 +111,15 @@ fn plan_str(p: &Plan) -> String {
 }
 fn sched_str(s: &Sched) -> String {
     format!(
-        "prio={};batch={};spurious={};caller={};grace={};drop={};mt={}",
+        "prio={};batch={};spurious={};caller={};grace={};drop={};mt={};hap={}",
         s.prio.iter().map(|x| x.to_string()).collect::<Vec<_>>().join("."),
         s.batch,
         s.spurious as u8,
         s.caller.clone().unwrap_or_else(|| "-".into()),
         s.grace_us,
         s.drop_unpolled as u8,
-        s.mt as u8
+        s.mt as u8,
+        s.hold_after_panic as u8
     )
 }
 fn parse_plan(s: &str) -> Plan {
@@ -140,6 +141,7 @@ fn parse_sched(s: &str) -> Sched {
             "grace" => sc.grace_us = v.parse().unwrap_or(0),
             "drop" => sc.drop_unpolled = v == "1",
             "mt" => sc.mt = v == "1",
+            "hap" => sc.hold_after_panic = v == "1",
             _ => {}
         }
     }
@@ -316,7 +318,7 @@ fn permutations(v: &[u16]) -> Vec<Vec<u16>> {
 fn prios(gates: &[(usize, Vec<u16>)], cap: usize, rng: &mut Rng) -> (Vec<Vec<u16>>, bool) {
     let mut total: usize = 1;
     for (_, g) in gates {
-        let f: usize = (1..=g.len()).product();
+        let f: usize = (1..=g.len()).fold(1usize, |a, b| a.saturating_mul(b));
         total = total.saturating_mul(f.max(1));
     }
     if total <= cap && gates.iter().all(|(_, g)| g.len() <= 5) {
@@ -851,6 +853,21 @@ impl<'a> Engine<'a> {
                             self.stats.bump("panic_positions_not_reached_under_plan", 1);
                         }
                         self.exec(cx, &p, &default, nt);
+                        if kind.is_threads() && nt && !exp.panic_optional {
+                            // thread handles are joined in branch order: the panic must reach the caller while the
+                            // threads of higher-index siblings are still held at their gates
+                            let gates = choose_gates(c, &exp, GateMode::All, &mut rng);
+                            let (ps, _) = prios(&gates, 2, &mut rng);
+                            let gp = with_gates(&p, &gates);
+                            for pr in ps {
+                                let s = Sched { prio: pr, batch: 1, hold_after_panic: true, ..default.clone() };
+                                if let Some((rec, _, _)) = self.exec(cx, &gp, &s, nt) {
+                                    if rec.held_at_result >= 1 && matches!(rec.outcome, Outcome::Panicked(_)) {
+                                        self.stats.bump("panic_runs_with_higher_sibling_threads_held", 1);
+                                    }
+                                }
+                            }
+                        }
                         if kind.is_async() && nt && !exp.panic_optional {
                             // the panic must reach the caller while sibling branches of that step are still pending
                             let gates = choose_gates(c, &exp, GateMode::All, &mut rng);
